@@ -1066,6 +1066,22 @@ def mulw(w2):
     return z3.Function("MULW%d" % w2, s, s, s)
 
 
+def mentions(expr, names):
+    """does the term contain an application of one of the named functions / constants"""
+    seen, stack = set(), [expr]
+    while stack:
+        e = stack.pop()
+        i = e.get_id()
+        if i in seen:
+            continue
+        seen.add(i)
+        if z3.is_app(e):
+            if e.decl().name() in names:
+                return True
+            stack.extend(e.children())
+    return False
+
+
 def uf_apps(exprs, name_prefix="MULW"):
     """all distinct applications of the MULW functions inside exprs"""
     seen, out, stack = set(), [], list(exprs)
@@ -1079,6 +1095,26 @@ def uf_apps(exprs, name_prefix="MULW"):
             if e.decl().kind() == z3.Z3_OP_UNINTERPRETED and e.num_args() == 2 and e.decl().name().startswith(name_prefix):
                 out.append(e)
             stack.extend(e.children())
+    return out
+
+
+def magnitude_lemmas(app, mul=None):
+    """|X| < 2^p  =>  |X*Y| <= |Y| * 2^p   for operands that are sign extensions of h-bit values (no wrap in 2h bits);
+    lets the solver do interval-style reasoning about an uninterpreted product."""
+    X, Y = app.children()
+    w2 = X.size()
+    h = w2 // 2
+    P = app if mul is None else mul
+    c = lambda v: z3.BitVecVal(v, w2)
+    absv = lambda v: z3.If(v < 0, -v, v)
+    lim = c(1 << (h - 1))
+    small = z3.And(X <= lim, X >= -lim, Y <= lim, Y >= -lim)
+    aX, aY, aP = absv(X), absv(Y), absv(P)
+    out = []
+    for p in range(0, h):
+        out.append(z3.Implies(z3.And(small, aX < c(1 << p)), aP <= (aY << p)))
+        out.append(z3.Implies(z3.And(small, aY < c(1 << p)), aP <= (aX << p)))
+        out.append(z3.Implies(z3.And(small, aX >= c(1 << p)), aP >= (aY << p)))
     return out
 
 
@@ -1123,7 +1159,7 @@ def lemma_selftest():
         x, y = z3.BitVecs("lx ly", w2)
         app = mulw(w2)(x, y)
         s = z3.Solver()
-        s.add(z3.Not(z3.And(mul_lemmas(app, mul=x * y))))
+        s.add(z3.Not(z3.And(mul_lemmas(app, mul=x * y) + magnitude_lemmas(app, mul=x * y))))
         _LEMMA_OK = s.check() == z3.unsat
     return _LEMMA_OK
 
